@@ -5,7 +5,7 @@
   is → the occurrence algebra).  String lemmas live in `SpVerif.Lemmas.BoolFlag`.
 
   Sections: the occurrence algebra · the negative option STRINGS (shape, counterparts, injectivity /
-  no collision, the explicit option and its two open findings) · classification and the end-to-end
+  no collision, the explicit option — full statements since repo fixes 7335e5b / c681aea) · classification and the end-to-end
   path · vocabulary (exact words, case-insensitivity).
 -/
 import SpVerif.Model.BoolFlag
@@ -408,37 +408,24 @@ example : negLoop "--no".toList [] ["--train.debug".toList, "--train.my-debug".t
     = some ["--train.nodebug".toList, "--train.nomy-debug".toList] := by decide
 example : negLoop "--no".toList [] ["--valid.debug".toList] = some ["--valid.nodebug".toList] := by decide
 
-/-! #### the explicit `negative_option` (custom_actions.py:65-94) -/
+/-! #### the explicit `negative_option` (custom_actions.py:65-95)
 
-/-- the conflict prefix handed over by the FieldWrapper is empty or ends in a dot (decidable) -/
-def PrefixDotted (cp : Str) : Prop := cp = [] ∨ cp.getLast? = some '.'
-instance (cp : Str) : Decidable (PrefixDotted cp) := by unfold PrefixDotted; exact inferInstance
+  Both former open findings of this section are fixed in the code (repo 7335e5b: no `assert` on the
+  conflict prefix; repo c681aea: the prefix is dashed under DASH), so the full statements are theorems. -/
 
 /-- FULL statement of "the declared negative option carries the same conflict prefix as the positive
-    one": exactly one negative option string, namely dashes + prefix + the declared word. -/
+    one": exactly one negative option string, namely dashes + prefix + the declared word — for EVERY
+    prefix (with or without a final dot, user prefix included). -/
 def ExplicitCarriesPrefix : Prop :=
   ∀ no cp : Str, ∃ k, negExplicit no cp = some [List.replicate k '-' ++ cp ++ lstripDash no]
 
-/-- the code does NOT satisfy it: `FieldWrapper.prefix` also contains the USER prefix
-    (`add_arguments(C, dest, prefix="x_")`), which need not end in a dot; `__init__` then dies on a bare
-    `assert` (custom_actions.py:75).  Open finding C12-explicit-neg-user-prefix. -/
-theorem c12_explicit_prefix_witness : ¬ ExplicitCarriesPrefix := by
-  intro h
-  obtain ⟨k, hk⟩ := h "silent".toList "x_".toList
-  have : negExplicit "silent".toList "x_".toList = none := by decide
-  rw [this] at hk; cases hk
-
-/-- ... and it holds under the named exclusion -/
-theorem c12_explicit_prefix_partial (no cp : Str) (h : PrefixDotted cp) :
+/-- the closed form, with the number of dashes: those of the declared option when it has some, else two
+    — one only for an unprefixed single character -/
+theorem c12_explicit_shape (no cp : Str) :
     ∃ k, negExplicit no cp = some [List.replicate k '-' ++ cp ++ lstripDash no] ∧
       (no.head? = some '-' → k = leadingDashes no) ∧
       (no.head? ≠ some '-' → k = if cp.length + no.length > 1 then 2 else 1) := by
-  have hok : (!cp.isEmpty && cp.getLast? != some '.') = false := by
-    rcases h with h | h
-    · subst h; rfl
-    · simp [h]
   unfold negExplicit
-  rw [hok]
   by_cases hd : no.head? = some '-'
   · refine ⟨leadingDashes no, ?_, fun _ => rfl, fun hx => absurd hd hx⟩
     simp [hd]
@@ -451,33 +438,22 @@ theorem c12_explicit_prefix_partial (no cp : Str) (h : PrefixDotted cp) :
       have : ¬ 1 < cp.length + no.length := hlen
       simp [hd, this]
 
-/-- set-up raises exactly outside the exclusion -/
-theorem c12_explicit_raises_iff (no cp : Str) : negExplicit no cp = none ↔ ¬ PrefixDotted cp := by
-  constructor
-  · intro h hp
-    obtain ⟨k, hk, _⟩ := c12_explicit_prefix_partial no cp hp
-    rw [h] at hk; cases hk
-  · intro h
-    unfold PrefixDotted at h
-    have h1 : cp ≠ [] := fun e => h (Or.inl e)
-    have h2 : cp.getLast? ≠ some '.' := fun e => h (Or.inr e)
-    have : (!cp.isEmpty && cp.getLast? != some '.') = true := by
-      cases cp with
-      | nil => exact absurd rfl h1
-      | cons c cs => simpa using h2
-    simp [negExplicit, this]
+/-- **the full statement holds** (it was refuted by `"silent"`, `"x_"` before repo fix 7335e5b) -/
+theorem c12_explicit_prefix : ExplicitCarriesPrefix := by
+  intro no cp
+  obtain ⟨k, hk, _⟩ := c12_explicit_shape no cp
+  exact ⟨k, hk⟩
+
+/-- set-up never raises on the explicit branch, whatever the conflict prefix -/
+theorem c12_explicit_never_raises (no cp : Str) : negExplicit no cp ≠ none := by
+  obtain ⟨k, hk, _⟩ := c12_explicit_shape no cp
+  rw [hk]; simp
 
 /-- **the declared negative options of the same field at different conflict prefixes never collide** -/
 theorem c12_explicit_injective (no cp cp' : Str) (l : List Str)
     (h : negExplicit no cp = some l) (h' : negExplicit no cp' = some l) : cp = cp' := by
-  have hp : PrefixDotted cp := by
-    apply Classical.byContradiction; intro hx
-    rw [(c12_explicit_raises_iff no cp).mpr hx] at h; cases h
-  have hp' : PrefixDotted cp' := by
-    apply Classical.byContradiction; intro hx
-    rw [(c12_explicit_raises_iff no cp').mpr hx] at h'; cases h'
-  obtain ⟨k, hk, hk1, hk2⟩ := c12_explicit_prefix_partial no cp hp
-  obtain ⟨k', hk', hk1', hk2'⟩ := c12_explicit_prefix_partial no cp' hp'
+  obtain ⟨k, hk, hk1, hk2⟩ := c12_explicit_shape no cp
+  obtain ⟨k', hk', hk1', hk2'⟩ := c12_explicit_shape no cp'
   rw [h] at hk; rw [h'] at hk'
   have e : List.replicate k '-' ++ cp ++ lstripDash no = List.replicate k' '-' ++ cp' ++ lstripDash no := by
     have := (Option.some.inj hk).symm.trans (Option.some.inj hk')
@@ -496,7 +472,9 @@ theorem c12_explicit_injective (no cp cp' : Str) (l : List Str)
     subst hkk
     exact List.append_cancel_left e
 
-example : PrefixDotted "train.".toList := by decide
+-- regression: the former witness of the open finding C12-explicit-neg-user-prefix (was `none`)
+example : negExplicit "silent".toList "x_".toList = some ["--x_silent".toList] := by decide
+example : negExplicit "--quiet".toList "x".toList = some ["--xquiet".toList] := by decide
 example : negExplicit "silent".toList "train.".toList = some ["--train.silent".toList] := by decide
 example : negExplicit "-s".toList "a.b.".toList = some ["-a.b.s".toList] := by decide
 example : negExplicit "q".toList [] = some ["-q".toList] := by decide
@@ -724,8 +702,9 @@ example : exSetup.fw.positional = false ∧ exSetup.negOption = none := ⟨rfl, 
 example : run 2 exSetup (some true)
     [⟨"--train.my-flag".toList, none⟩, ⟨"--cfg.train.my_flag".toList, some "No".toList⟩,
      ⟨"--cfg.train.nomy-flag".toList, none⟩] = .res (.ok false) := by decide
+-- regression (was `.setupRaise` before repo fix 7335e5b): a user prefix without a final dot
 example : run 2 { exSetup with negOption := some "silent".toList, fw := { exSetup.fw with pref := "x_".toList } }
-    (some true) [] = .setupRaise := by decide
+    (some true) [⟨"--x_silent".toList, none⟩] = .res (.ok false) := by decide
 end
 
 /-! #### the declared negative option against the prefix the POSITIVE option shows -/
@@ -742,16 +721,9 @@ theorem flatCand_prefix (cfg : Cfg) (fw : FW) :
   · exact ⟨dashify fw.name, by simp [h, dashify]⟩
   · exact ⟨fw.name, by simp [h]⟩
 
-theorem dashify_of_no_underscore (s : Str) (h : hasUnderscore s = false) : dashify s = s := by
-  induction s with
-  | nil => rfl
-  | cons c cs ih =>
-    simp only [hasUnderscore, List.contains_cons, Bool.or_eq_false_iff] at h
-    have hc : c ≠ '_' := by
-      intro e; subst e; simp at h
-    have hcs : hasUnderscore cs = false := h.2
-    simp only [dashify, List.map_cons, hc, ↓reduceIte]
-    exact congrArg _ (ih hcs)
+open SpVerif.BoolE2E in
+/-- the prefix handed to the action is the prefix the positive option shows (repo fix c681aea) -/
+theorem conflictPrefix_eq_posPrefix (cfg : Cfg) (fw : FW) : conflictPrefix cfg fw = posPrefix cfg fw := rfl
 
 open SpVerif.BoolE2E in
 /-- FULL statement, end to end: whenever the parser can be built with a declared negative option, that
@@ -761,60 +733,39 @@ def ExplicitMatchesPositive : Prop :=
     ∃ k, negs = [List.replicate k '-' ++ posPrefix s.cfg s.fw ++ lstripDash no]
 
 open SpVerif.BoolE2E in
-/-- the code does NOT satisfy it under `DashVariant.DASH` when the conflict prefix contains an underscore:
-    positive `--my-a.flag`, negative `--my_a.silent` (field_wrapper.py:387 hands the raw prefix over).
-    Open finding C12-explicit-neg-dash-variant. -/
-theorem c12_explicit_dash_witness : ¬ ExplicitMatchesPositive := by
-  intro h
-  let s : Setup := { cfg := ⟨.dashOnly, .flat, .default⟩,
-                     fw := { name := "flag".toList, pref := "my_a.".toList, dest := "my_a.flag".toList, aliases := [] },
-                     negPrefix := "--no".toList, negOption := some "silent".toList }
-  obtain ⟨k, hk⟩ := h s "silent".toList ["--my-a.flag".toList] ["--my_a.silent".toList] rfl (by decide)
-  have hlen := congrArg (fun l => l.map List.length) hk
-  have h1 : posPrefix s.cfg s.fw = "my-a.".toList := by decide
-  have hk' : "--my_a.silent".toList = List.replicate k '-' ++ "my-a.".toList ++ "silent".toList := by
-    have := List.head_eq_of_cons_eq hk
-    rw [h1] at this
-    exact this
-  have hl := congrArg List.length hk'
-  simp only [List.length_append, List.length_replicate] at hl
-  have : k = 2 := by
-    have a : "--my_a.silent".toList.length = 13 := by decide
-    have b : "my-a.".toList.length = 5 := by decide
-    have c : "silent".toList.length = 6 := by decide
-    omega
-  subst this
-  exact absurd hk' (by decide)
+/-- **the full statement holds in every configuration** — every dash variant, generation mode, nested
+    mode, name, prefix (it was refuted under DASH with an underscore in the prefix before repo fix
+    c681aea: positive `--my-a.flag`, negative `--my_a.silent`). -/
+theorem c12_explicit_matches_positive : ExplicitMatchesPositive := by
+  intro s no pos negs hno hs
+  unfold optionsOf at hs
+  simp only [negStrings, hno, conflictPrefix_eq_posPrefix] at hs
+  obtain ⟨k, hk, _⟩ := c12_explicit_shape no (posPrefix s.cfg s.fw)
+  rw [hk] at hs
+  simp only [Option.some.injEq, Prod.mk.injEq] at hs
+  exact ⟨k, hs.2.symm⟩
 
 open SpVerif.BoolE2E in
-/-- ... and holds under the named exclusion (not DASH, or no underscore in the prefix) -/
-theorem c12_explicit_dash_partial (s : Setup) (no : Str) (pos negs : List Str)
-    (hx : s.cfg.dash ≠ .dashOnly ∨ hasUnderscore s.fw.pref = false)
-    (hno : s.negOption = some no) (hs : optionsOf s = some (pos, negs)) :
-    ∃ k, negs = [List.replicate k '-' ++ posPrefix s.cfg s.fw ++ lstripDash no] := by
-  have hpp : posPrefix s.cfg s.fw = s.fw.pref := by
-    unfold posPrefix
-    rcases hx with hx | hx
-    · simp [hx]
-    · split
-      · exact dashify_of_no_underscore _ hx
-      · rfl
-  rw [hpp]
-  unfold optionsOf at hs
-  simp only [negStrings, hno] at hs
-  cases he : negExplicit no s.fw.pref with
-  | none => rw [he] at hs; cases hs
-  | some l =>
-    rw [he] at hs
-    simp only [Option.some.injEq, Prod.mk.injEq] at hs
-    have hp : PrefixDotted s.fw.pref := by
-      apply Classical.byContradiction; intro hc
-      rw [(c12_explicit_raises_iff no _).mpr hc] at he; cases he
-    obtain ⟨k, hk, _⟩ := c12_explicit_prefix_partial no s.fw.pref hp
-    rw [he] at hk
-    exact ⟨k, by rw [← hs.2]; exact Option.some.inj hk⟩
+/-- with a declared negative option the parser can always be built, and there is exactly one negative
+    option string -/
+theorem c12_explicit_e2e_total (s : Setup) (no : Str) (hno : s.negOption = some no) :
+    ∃ n, optionsOf s = some (optionStrings s.cfg s.fw, [n]) := by
+  obtain ⟨k, hk, _⟩ := c12_explicit_shape no (conflictPrefix s.cfg s.fw)
+  refine ⟨List.replicate k '-' ++ conflictPrefix s.cfg s.fw ++ lstripDash no, ?_⟩
+  simp only [optionsOf, negStrings, hno, hk]
 
-example : (⟨.both, .flat, .default⟩ : Cfg).dash ≠ .dashOnly ∨ hasUnderscore "my_a.".toList = false := by decide
+section
+open SpVerif.BoolE2E
+/-- regression: the former witness of the open finding C12-explicit-neg-dash-variant -/
+def exDashSetup : Setup :=
+  { cfg := ⟨.dashOnly, .flat, .default⟩,
+    fw := { name := "flag".toList, pref := "my_a.".toList, dest := "my_a.flag".toList, aliases := [] },
+    negPrefix := "--no".toList, negOption := some "silent".toList }
+example : optionsOf exDashSetup = some (["--my-a.flag".toList], ["--my-a.silent".toList]) := by decide
+example : exDashSetup.negOption = some "silent".toList := rfl
+example : run 2 exDashSetup (some true) [⟨"--my-a.flag".toList, none⟩, ⟨"--my-a.silent".toList, none⟩]
+    = .res (.ok false) := by decide
+end
 
 /-! ### vocabulary -/
 
